@@ -4,6 +4,7 @@ from __future__ import annotations
 from kfv.core import Ctx
 from kfv.rules import dist_rules as D
 from kfv.rules import tensor_rules as TR
+from kfv.rules import bkt_rules as B
 from kfv.rules import spmd_rules as R
 
 TECHNIQUE = ('SPMD collective-matching analysis: resolved call graph (mypy-typed class-hierarchy analysis), '
@@ -31,6 +32,7 @@ def run(ctx: Ctx) -> None:
         ctx.do(R.rule_S3, fam)
         ctx.do(R.rule_S5, fam)
     ctx.do(R.rule_S8)
+    ctx.do(B.rule_ts_bkt)
     ctx.do(TR.rule_tt_comm)
     ctx.do(D.rule_dom_valid)
     ctx.do(D.rule_rank_space)
